@@ -3,6 +3,7 @@ import Tibc.LC.Tendermint
 import Tibc.LC.Status
 import Tibc.Commitment.Verify
 import Tibc.LC.Bsc
+import Tibc.LC.Eth
 /-
   Line-protocol driver: reads one operation per line on stdin, runs the model, prints one
   canonical outcome line per operation. Core Lean only.
@@ -157,6 +158,7 @@ structure St where
   u : Univ := {}
   tm : String → Option TM.Client := fun _ => none
   bsc : String → Option (BSC.Client × List Nat) := fun _ => none
+  eth : String → Option (ETH.Client × List ETH.Key × List ETH.Key) := fun _ => none
 
 namespace BSCD
 open BSC
@@ -200,6 +202,42 @@ def dump (c : BSC.Client) (heights : List Nat) : String :=
   s!"latest={c.latest.number}:{c.latest.hash} vals={natsStr c.validators} recents={dash rs} pending={natsStr c.pending} cons={dash cs}"
 
 end BSCD
+
+namespace ETHD
+open ETH
+
+def parseHdr (tok : String) : Option Hdr :=
+  match tok.splitOn ";" with
+  | [number, hash, parent, time, root, gasLimit, gasUsed, baseFee, diff, uncles, extraLen, wf, sealB] => do
+    let number ← number.toNat?
+    let time ← time.toNat?
+    let gasLimit ← gasLimit.toNat?
+    let gasUsed ← gasUsed.toNat?
+    let baseFee ← baseFee.toNat?
+    let diff ← diff.toNat?
+    let extraLen ← extraLen.toNat?
+    pure { number := number, hash := hash, parent := parent, time := time, root := root, gasLimit := gasLimit, gasUsed := gasUsed,
+           baseFee := baseFee, difficulty := diff, uncles := uncles == "1", extraLen := extraLen, wellFormed := wf == "1",
+           sealOk := sealB == "1" }
+  | _ => none
+
+def insKey (e : Nat × String) : List (Nat × String) → List (Nat × String)
+  | [] => [e]
+  | x :: rest => if e.1 < x.1 || (e.1 == x.1 && e.2 ≤ x.2) then e :: x :: rest else x :: insKey e rest
+
+def dash (l : List String) : String := if l.isEmpty then "-" else ",".intercalate l
+
+/-- `ks`: all header-index keys ever written, `rs`: all root-index keys ever written -/
+def dump (c : ETH.Client) (base maxH : Nat) (ks rs : List Key) : String :=
+  let hs := (List.range (maxH + 1 - base)).map (· + base)
+  let cs := hs.filterMap (fun h => (c.cons h).map (fun k => s!"{h}:{k.time}:{k.number}:{k.root}"))
+  let idx := (ks.filterMap (fun k => (c.idx k).map (fun _ => (k.2, s!"{k.2}:{k.1}")))).foldr insKey []
+  let rm := (rs.filterMap (fun k => (c.rootMain k).map (fun v => (k.2, s!"{k.2}:{k.1}>{v.2}:{v.1}")))).foldr insKey []
+  s!"latest={c.latest.number}:{c.latest.hash} cons={dash cs} idx={dash (idx.map (·.2))} rm={dash (rm.map (·.2))}"
+
+def addKey (k : Key) (ks : List Key) : List Key := if ks.contains k then ks else ks ++ [k]
+
+end ETHD
 
 namespace TMD
 open TM
@@ -437,6 +475,29 @@ def stepLine (st : St) (line : String) : St × String :=
       let r := if kind == "tm" then LCStatus.tm t pd now else LCStatus.eth t pd now
       (st, "res=" ++ (match r with | .active => "Active" | .expired => "Expired" | .unknown => "Unknown"))
     | _, _ => bad
+  | ["eth.create", name, period, hdr] =>
+    match period.toNat?, ETHD.parseHdr hdr with
+    | some period, some h =>
+      let c : ETH.Client := { latest := h, period := period, heights := [h.number],
+                              idx := fun k => if k == (h.hash, h.number) then some h else none,
+                              rootMain := fun k => if k == (h.root, h.number) then some (h.hash, h.number) else none,
+                              cons := fun n => if n == h.number then some (ETH.consOf h) else none }
+      let ks := [(h.hash, h.number)]
+      let rs := [(h.root, h.number)]
+      ({ st with eth := upd st.eth name (some (c, ks, rs)) }, s!"res=ok | {ETHD.dump c h.number h.number ks rs}")
+    | _, _ => bad
+  | ["eth.update", name, now, hdr] =>
+    match st.eth name, now.toNat?, ETHD.parseHdr hdr with
+    | some (c, ks, rs), some now, some h =>
+      let base := (ks.head?.map (·.2)).getD 0
+      let maxOf := fun (c : ETH.Client) => c.heights.foldl max base
+      match ETH.deliverUpdate c h now with
+      | some c' =>
+        let ks' := ETHD.addKey (h.hash, h.number) ks
+        let rs' := ETHD.addKey (h.root, h.number) rs
+        ({ st with eth := upd st.eth name (some (c', ks', rs')) }, s!"res=ok | {ETHD.dump c' base (max (maxOf c') (maxOf c)) ks' rs'}")
+      | none => (st, s!"res=fail | {ETHD.dump c base (maxOf c) ks rs}")
+    | _, _, _ => bad
   | ["bsc.create", name, epoch, hdr, vals, recs] =>
     match epoch.toNat?, BSCD.parseHdr hdr, BSCD.parseNats vals, BSCD.parseRecs recs with
     | some epoch, some h, some vals, some recs =>
